@@ -199,6 +199,11 @@ class Parser:
             if self.accept("->"):
                 ret = self.type_()
             return N("tfn", params=params, ret=ret)
+        if self.at("impl") and self.at("Iterator", 1):
+            # phase 6: `impl Iterator<Item = T>` (a return type): the list of the items it yields
+            self.next()
+            inner = self.type_()
+            return N("tpath", segs=[("ImplIterator", inner.segs[-1][1])])
         if self.peek().kind != "id" or self.peek().text in ("impl", "dyn", "fn", "for", "mut", "const"):
             self.fail("expected a (path / reference / slice / tuple) type")
         segs = []
@@ -1148,6 +1153,7 @@ def mkseq(stmts, final):
 
 # Rust type name -> Lean type of the Model (generic parameter `NumericTypes` is fixed to DefaultNumericTypes)
 TYPE_MAP = {
+    "()": "Unit",      # phase 6: `impl … for ()`
     "char": "Char", "Token": "Token", "PartialToken": "PartialToken", "Peekable": "(List Char)", "Chars": "(List Char)",
     "usize": "Nat", "u64": "UInt64", "u32": "UInt32", "bool": "Bool", "DefaultNumericTypes": "Unit", "String": "Str", "str": "Str", "i64": "Int64", "f64": "Float",
     "Value": "Value", "ValueType": "ValueType", "Operator": "Operator", "Node": "Node", "EvalexprError": "Err",
@@ -1301,7 +1307,7 @@ PRIM_METHODS = {
 CLASS_TRAIT_METHODS = {("min", 1): ("Rs.min", "Rs.Min"), ("max", 1): ("Rs.max", "Rs.Max")}
 # phase 5: associated std functions of the primitives: `i64::from_str` (FromStr), `i64::from_str_radix(_, 16)`
 PRIM_PATHS = {("i64", "from_str"): (1, "Rs.i64_from_str"), ("i64", "from_str_radix"): (2, "Rs.i64_from_str_radix")}
-TRANSLATED_TRAITS = ("Iterator", "EvalexprInt", "EvalexprFloat", "EvalexprNumericTypes", "IterateVariablesContext")
+TRANSLATED_TRAITS = ("TryFrom", "Iterator", "EvalexprInt", "EvalexprFloat", "EvalexprNumericTypes", "IterateVariablesContext")
 # free functions / associated functions, by path suffix
 BOUNDARY_PATHS = {
     # (tree-builder extension, after phase 5: `token::tokenize` is no longer a boundary call, it is translated; see FUEL_CALLS)
@@ -1336,6 +1342,7 @@ STD_METHODS = {
     ("is_whitespace", 0): ("Evalexpr.isWhitespace", None), ("is_ascii_digit", 0): ("Evalexpr.F64.isDigit", None),
     ("strip_prefix", 1): ("Rs.strip_prefix", None), ("ok", 0): ("Rs.ok", None), ("flatten", 0): ("Rs.flatten", None),
     ("then", 1): ("Rs.bool_then", None), ("starts_with", 1): ("Rs.starts_with", None),
+    ("filter_map", 1): ("Rs.filter_map", None),        # phase 6
     ("iter", 0): ("Rs.iter", None), ("iter_mut", 0): ("Rs.iter", None), ("into_iter", 0): ("Rs.iter", None), ("keys", 0): ("Rs.keys", None),
     ("to_lowercase", 0): ("Rs.to_lowercase", None), ("to_uppercase", 0): ("Rs.to_uppercase", None), ("trim", 0): ("Rs.trim", None),
     ("contains", 1): ("Rs.contains", None), ("ok_or", 1): ("Rs.ok_or", None), ("as_str", 0): ("Rs.clone", None),
@@ -1369,7 +1376,8 @@ MODULE_ORDER = ["FnValueType", "FnNumericTypes", "FnError", "FnValue", "FnNumeri
                 "FnOperatorTables", "FnToken",   # (tree-builder extension)
                 "FnOperator", "FnTree",
                 "FnTreeBuild",   # (tree-builder extension)
-                "FnIter", "FnInterface"]
+                "FnIter", "FnInterface",
+                "FnSweep"]   # phase 6: the remaining API projections (own module: the existing modules stay byte-identical)
 T2_MODULES = ("FnOperatorTables", "FnToken", "FnTreeBuild")
 # ---- tree-builder extension: per-function module overrides (file, owner, fn name) -> module
 TREE_BUILD_FNS = {("tree/mod.rs", "Node", n): "FnTreeBuild" for n in
@@ -1540,6 +1548,8 @@ class World:
         return res
 
     def module_of(self, item):
+        if getattr(item, "phase6", False):      # phase 6
+            return "FnSweep"
         if (item.file, item.impl_type, item.name) in TREE_BUILD_FNS:   # (tree-builder extension)
             return TREE_BUILD_FNS[(item.file, item.impl_type, item.name)]
         # (tree-builder extension) a helper that is not a root (e.g. extracted from a tree-builder function): the module of its caller
@@ -1565,8 +1575,12 @@ class World:
         if item.sig_error:
             raise Untranslatable("signature: " + item.sig_error, item.where)
         owner = item.impl_type
+        if owner == "()":
+            owner = "Unit"          # phase 6: `impl … for ()`
         if item.impl_trait == "From":
-            lean_name = f"{owner}.from_{from_desc(item.trait_args[0])[1]}"
+            lean_name = f"{owner}.from_{from_desc(item.trait_args[0])[1]}".replace("()", "Unit")
+        elif item.impl_trait == "TryFrom" and item.name == "try_from":     # phase 6
+            lean_name = f"{owner}.try_from"
         elif item.impl_trait == "Default" and item.name == "default":
             lean_name = f"{owner}.default"
         elif item.impl_trait not in (None, "<trait>", "Context", "ContextWithMutableVariables", "ContextWithMutableFunctions") + TRANSLATED_TRAITS:
@@ -1679,11 +1693,16 @@ class FnTr:
         if name == "Self":
             if self.item.impl_type in TYPE_MAP:
                 return TYPE_MAP[self.item.impl_type]
+            if self.item.impl_type == "EvalexprResultValue":      # phase 6: `impl From<Value> for EvalexprResultValue`
+                return "(Res Value)" if paren else "Res Value"
             self.fail("Self type " + str(self.item.impl_type))
         if name in ("Int", "Float", "NumericTypes"):
             self.fail("bare type " + name)
         if name in TYPE_MAP:
             return TYPE_MAP[name]
+        if name == "ImplIterator" and len(args) == 1:       # phase 6
+            s_ = "List " + self.ltype(args[0], True)
+            return "(" + s_ + ")" if paren else s_
         if name in GENERIC_TYPE_MAP and len(args) == 1:
             s = GENERIC_TYPE_MAP[name] + " " + self.ltype(args[0], True)
             return "(" + s + ")" if paren else s
@@ -2560,6 +2579,11 @@ class FnTr:
         if len(segs) == 1 and self.is_local(segs[0]):
             # a local variable of function type (`fn(..) -> ..` parameter): application
             return self.with_args(e.args, lambda a: App(lname(segs[0]), a))
+        # ---- phase 6: `Self(PhantomData)` in an impl whose type is a unit struct over PhantomData (modelled as Unit)
+        if (segs == ["Self"] and n == 1 and e.args[0].kind == "path" and e.args[0].segs == ["PhantomData"]
+                and TYPE_MAP.get(self.item.impl_type) == "Unit"):
+            return Atom("()")
+        # ---- end phase 6
         if segs[-2:] == ["Function", "new"] and n == 1:
             c = e.args[0]
             if c.kind != "closure" or len(c.params) != 1:
@@ -2668,6 +2692,11 @@ class FnTr:
             node = self.with_args([e.recv] + e.args, lambda a: App("Rs.swap_remove", [self.site("swap_remove out of bounds")] + a, eff=True))
             self.dead_refs.add(r.segs[0])
             return node
+        # ---- phase 6: `Node::iter` / `Node::iter_operators_mut` (src/tree/iter.rs, `impl Iterator` built from NodeIter /
+        # OperatorIterMut) are BOUNDARY calls: the Model's `Node.iter` / `Node.iterOperatorsMut` (the lists they yield)
+        if n == 0 and name in PHASE6_ITER and e.recv.kind == "path" and e.recv.segs == ["self"] and self.item.impl_type == "Node":
+            return App(PHASE6_ITER[name], [Atom("self")])
+        # ---- end phase 6
         if (name, n) in CLASS_TRAIT_METHODS and not (prim and on_value):
             return self.with_args([e.recv] + e.args, lambda a: App(CLASS_TRAIT_METHODS[(name, n)][0], a))
         if (name, n) in STD_METHODS:
@@ -4157,7 +4186,7 @@ class FnTr:
             g.instance = f"instance : Rs.Into {src_t} {TYPE_MAP[it.impl_type]} := ⟨{g.lean_name}⟩\n"
         if it.impl_type == "f64" and it.impl_trait == "EvalexprFloat" and (it.name, len(it.params)) in CLASS_TRAIT_METHODS:
             g.instance = f"instance : {CLASS_TRAIT_METHODS[(it.name, len(it.params))][1]} Float := ⟨{g.lean_name}⟩\n"
-        if it.impl_trait == "Default":
+        if it.impl_trait == "Default" and not getattr(it, "phase6", False):   # phase 6: no instance for the Unit-modelled contexts
             g.instance = f"instance : Rs.Default {TYPE_MAP[it.impl_type]} := ⟨{g.lean_name}⟩\n"
 
 
@@ -4249,6 +4278,23 @@ FROM_IMPLS = [
 ]
 
 
+PHASE6_ITER = {"iter": "Evalexpr.Node.iter", "iter_operators_mut": "Evalexpr.Node.iterOperatorsMut"}
+# ---- phase 6: (file, owner, fn, impl trait, trait argument as written)
+PHASE6_ROOTS = [("value/mod.rs", "Value", n, None, None) for n in
+                ("is_string", "is_int", "is_float", "is_number", "is_boolean", "is_tuple", "is_empty")] + [
+    ("value/mod.rs", "Value", "from", "From", "TupleType"),
+    ("value/mod.rs", "EvalexprResultValue", "from", "From", "Value"),
+    ("value/mod.rs", "Value", "from", "From", "()"),
+    ("value/mod.rs", "String", "try_from", "TryFrom", "Value"),
+    ("value/mod.rs", "bool", "try_from", "TryFrom", "Value"),
+    ("value/mod.rs", "TupleType", "try_from", "TryFrom", "Value"),
+    ("value/mod.rs", "()", "try_from", "TryFrom", "Value"),
+] + [("tree/mod.rs", "Node", f"iter_{k}identifiers{m}", None, None)
+     for k in ("", "variable_", "read_variable_", "write_variable_", "function_") for m in ("", "_mut")] + [
+    ("context/mod.rs", "EmptyContext", "default", "Default", None),
+    ("context/mod.rs", "EmptyContextWithBuiltinFunctions", "default", "Default", None),
+]
+# ---- end phase 6
 SKIPPED_ARMS = []
 ROOT_KEYS = set(ROOTS)
 
@@ -4360,6 +4406,16 @@ def run():
         if len(c) != 1:
             raise Untranslatable(f"{len(c)} items named {name}", f"{file}::{(owner + '::') if owner else ''}{name}")
         top.append(w.require(c[0]))
+    # ---- phase 6: the remaining API projections, all emitted into the module FnSweep
+    for file, owner, name, trait, targ in PHASE6_ROOTS:
+        c = [it for it in w.items if it.file == file and it.impl_type == owner and it.name == name and it.impl_trait == trait
+             and (targ is None or (it.trait_args and from_desc(it.trait_args[0])[0] == targ))]
+        if len(c) != 1:
+            raise Untranslatable(f"phase 6: {len(c)} items for {owner}::{name} ({trait} {targ})", file)
+        c[0].phase6 = True
+        c[0].from_instance = False
+        top.append(w.require(c[0]))
+    # ---- end phase 6
     # ---- tree-builder extension (FUEL_CALLS): the emission order is the order in which the functions would be reached from the
     # roots if the FUEL_CALLS callees were still boundary calls (depth-first, callees first) — i.e. the order of phase 5 —, so that
     # making `tokenize` a translated callee of the interface functions does not move the lexer functions inside their modules
@@ -4401,6 +4457,8 @@ def run():
         if any(any(k in g.text for k in ("Rs.into", "Rs.default", "Rs.min", "Rs.max")) for g in by_mod[m]):
             need |= {g.module for g in w.order if g.instance and g.module != m and MODULE_ORDER.index(g.module) < MODULE_ORDER.index(m)}
         imports = "import EvalexprVerif.Translate.Prelude\n" + "".join(f"import EvalexprVerif.Generated.{x}\n" for x in prev if x in need)
+        if m == "FnSweep":
+            imports += "import EvalexprVerif.Model.Iter\n"       # phase 6: the boundary `Node::iter ↦ Evalexpr.Node.iter`
         body = []
         for g in by_mod[m]:
             body.append(g.text)
